@@ -47,6 +47,17 @@ theorem C05_check_after_history (H : SList → Nat) (Hf : Nat → Nat) (B fuel :
   obtain ⟨hdir, hex⟩ := hg.exact s k hsk
   exact ⟨hex, hok s hs k hsk, by rw [hdir]; simpa using hB, by rw [hdir]; simpa using hfuel⟩
 
+/-- **One merge re-establishes exactness of the whole split, whatever was rewritten below it beforehand.**  The store only has
+to be well formed (every list self-summing): lists below `[s]` may have been extended by fillers whose infos were held back
+(`auto_update_dataset=False`), by crashed sessions, by other writers — the recorded digests and totals of *every* list reachable
+from the split are recomputed, because the merge moves all already-known children into the recursion.  Hence `check()` passes
+after every commit that touches the split (`C05_check_complete`), not only after commits that name every rewritten directory. -/
+theorem C05_merge_restores_exactness (H : SList → Nat) (B fuel : Nat) (fs : FS) (s : Nat) (ups : List Kid) (hB : 1 ≤ B) (hfuel : B < fuel + 1)
+    (hwf : WF fs) (hd : DepthOK fs B) (hups : ∀ u ∈ ups, [s] <+: u.dir ∧ u.dir.length ≤ B) :
+    (merge H fuel fs [s] ups).2.dir = [s] ∧ Exact H (merge H fuel fs [s] ups).1 (merge H fuel fs [s] ups).2 := by
+  have hp := merge_spec H B fuel fs [s] ups (by simpa using hfuel) ⟨hwf, hd, hups, by simpa using hB⟩
+  exact ⟨hp.dir, hp.exact⟩
+
 /-- **Any altered / removed / replaced shard-list file is detected** -/
 theorem C05_detects_list_file (H : SList → Nat) (Hf : Nat → Nat) (fuel : Nat) (fs fs' : FS) (files : Files) (infos : List Kid)
     (k : Kid) (hk : k ∈ infos) (hex : Exact H fs k) (htame : ListsTame H fs fs' k.dir)
